@@ -108,7 +108,8 @@ def events(tr):
     out = []
     for i, o in enumerate(tr.obs):
         for e in o.ev:
-            out.append((i, e))
+            if not e.startswith("BufLeft:"):      # a driver observation of send(Buffer*), not a callback
+                out.append((i, e))
     return out
 
 
@@ -306,6 +307,15 @@ def oracle_c01(tr):
                 res.append((c["ran"], "foreign-send-overtaken-by-half-close",
                             "block of %d bytes accepted by send() on a foreign thread (op %d) was dropped: the half-close ran before its queued sendInLoop"
                             % (len(c["data"]), c["op"])))
+    # send(Buffer*) on the loop thread: an accepted block is taken out of the caller's buffer, a refused one is left there
+    for i, op in enumerate(ops):
+        t = op.split()
+        if t[0] == "SEND" and len(t) > 3 and t[3] == "b" and tr.obs[i].status == "ok":
+            pre_st = tr.obs[i - 1].st if i else CONNECTING
+            left = [int(e.split(":")[1]) for e in tr.obs[i].ev if e.startswith("BufLeft:")]
+            want = 0 if pre_st == CONNECTED else len(payload(t[1]))
+            if left != [want]:
+                res.append((i, None, "send(Buffer*) in state %d left %s byte(s) in the caller's buffer, expected %d" % (pre_st, left, want)))
     # inbound: every RD delivers exactly its bytes; Msg once per delivery with the right buffered size
     inlen = 0
     for i, op in enumerate(ops):
@@ -403,6 +413,17 @@ def oracle_c03(tr):
     # 2. every block accepted by send() before shutdown() is delivered in full before the FIN
     shut_i = next((i for i, op in enumerate(ops) if op.split()[0] in ("SHUT", "XSHUT") and tr.obs[i].status == "ok"
                    and (tr.obs[i - 1].st if i else CONNECTING) == CONNECTED), None)
+    # 2a. "... and only then does the peer see end-of-stream": it does see it.  Once the request has reached the loop
+    # thread (inline for a loop-thread shutdown(), the next task batch for a foreign one) an up connection whose
+    # backlog is empty has been half-closed; a backlog that drains later is followed by the half-close at once.
+    if shut_i is not None:
+        eff = shut_i if ops[shut_i].split()[0] == "SHUT" else next((j for j in range(shut_i + 1, len(ops)) if ops[j].startswith("RUN")), None)
+        if eff is not None:
+            for j in range(eff, len(tr.obs)):
+                o = tr.obs[j]
+                if o.st == DISCONNECTING and o.out == 0 and o.fin == 0:
+                    res.append((j, None, "shutdown() was requested at op %d and the backlog is empty, but the peer has not seen end-of-stream" % shut_i))
+                    break
     if shut_i is not None and first_fin is not None:
         before = [c for c in tr.calls if c["accepted"] and c["op"] < shut_i]
         lost = [c for c in before if c.get("fatal") and c.get("fin_at_run")]
@@ -492,6 +513,11 @@ def gen_case(rng, cid, profile="mixed", maxops=24):
             return rng.choice(SIZES)
         return rng.randint(0, 40)
 
+    def ovl():
+        """which send() overload: (const void*, int) [default, no token], StringPiece, Buffer*"""
+        r = rng.random()
+        return "" if r < 0.5 else (" s" if r < 0.8 else " b")
+
     def kres(nbytes):
         r = rng.random()
         if profile == "faults":
@@ -527,7 +553,7 @@ def gen_case(rng, cid, profile="mixed", maxops=24):
         k = rng.choices(kinds, wts)[0]
         if k == "SEND":
             s = size()
-            ops.append("SEND %s %s" % (pl(s), kres(s)))
+            ops.append("SEND %s %s%s" % (pl(s), kres(s), ovl()))
             backlog += s
         elif k == "FS":
             t = rng.randint(1, 3)
@@ -535,7 +561,7 @@ def gen_case(rng, cid, profile="mixed", maxops=24):
                 ops.append("FSE %d %s" % (t, parked.pop(t)))
             else:
                 p = pl(size())
-                ops.append("FSC %d %s" % (t, p))
+                ops.append("FSC %d %s%s" % (t, p, ovl()))
                 if rng.random() < 0.6:
                     ops.append("FSE %d %s" % (t, p))
                 else:
